@@ -128,9 +128,23 @@ def path(c, job):
     default = TYPES[typ]["default"]
     wd = c.boolean("writeDefault")
 
-    class Owner:
-        a = mt.tunable(default, writeDefault=wd, subtable=sub)
-        b = mt.tunable(default, subtable=sub)
+    if job.get("redefine"):
+        # the base class defines `a` with the opposite writeDefault and another default; the subclass definition wins
+        other = {"float": 99.5, "int": 77, "bool": False, "str": "base"}[typ]
+        wd_base = c.boolean("writeDefault_base")
+
+        class Base:
+            a = mt.tunable(other, writeDefault=wd_base, subtable=sub)
+            b = mt.tunable(default, subtable=sub)
+
+        class Owner(Base):
+            a = mt.tunable(default, writeDefault=wd, subtable=sub)
+
+        c.reach("redefined-tunable")
+    else:
+        class Owner:
+            a = mt.tunable(default, writeDefault=wd, subtable=sub)
+            b = mt.tunable(default, subtable=sub)
 
     names = ["n1", "n2"] if owner != "robot" else ["robot", "robot2"]
     keys = {(n, attr): expected_key(owner, n, sub, attr) for n in names for attr in ("a", "b")}
@@ -217,13 +231,15 @@ class C09(Spec):
         if tier != "quick":
             combos += [("autonomous", "tab", "int"), ("components", "x", "str"), ("components", None, "bool")]
         j += [dict(kind="rw", owner=o, subtable=s, type=t, K=K) for o, s, t in combos]
+        j += [dict(kind="rw", owner="components", subtable=None, type="int", K=1, redefine=True),
+              dict(kind="rw", owner="robot", subtable="s", type="float", K=1, redefine=True)]
         return j
 
     def bounds(self, tier):
         return dict(K=4 if tier == "quick" else 5, jobs=self.jobs(tier), values="symbolic real/int/bool per write; strings concrete tokens")
 
     def reach_required(self, tier):
-        return ["type-table", "preexisting-value", "existing-preserved", "existing-overwritten", "py-write", "nt-write"]
+        return ["type-table", "preexisting-value", "existing-preserved", "existing-overwritten", "py-write", "nt-write", "redefined-tunable"]
 
     def extra(self, tier, seed):
         from real.run import nt_contract
